@@ -161,7 +161,7 @@ func armCall(p *Program, b *ssa.BasicBlock) *ssa.Call {
 func checkC14(c *Ctx) {
 	c.Clauses = append(c.Clauses,
 		"C14.api: every public (non-internal) circl package exports the same API (names, types, constant values, method sets) in the default amd64 build, the purego build, arm64 and 386",
-		"C14.dispatch: in every function that branches on a CPU-feature test and whose two arms are thin forwarders, both arms forward the same parameters in the same order",
+		"C14.dispatch: in every function that branches on a CPU-feature test and whose two arms are thin forwarders, both arms forward the same parameters in the same order, and the body the portable (purego) build uses for the same function calls one of the two arms",
 		"C14.sibling: a function that has separate bodies in two build configurations uses the same set of its parameters in both (an implementation that ignores a parameter its sibling honours cannot compute the same result)",
 		"C14.tangle: the coefficient order private to the AVX2 NTT is hidden: Poly.Pack detangles before serialising, Poly.Unpack and the uniform samplers tangle before returning, in every configuration",
 		"C14.derive: the scalar and the four-way arm of Kyber's Mat.Derive agree on which index is passed as x under the transpose flag",
@@ -233,7 +233,7 @@ func checkC14(c *Ctx) {
 			continue
 		}
 		c.cur = n
-		compared, skipped := 0, 0
+		compared, skipped, withSibling := 0, 0, 0
 		var fs []*ssa.Function
 		for f := range p.AllFuncs {
 			if f.Blocks != nil && isCirclFunc(f) && f.Synthetic == "" {
@@ -269,15 +269,50 @@ func checkC14(c *Ctx) {
 				}
 				ra, rb := roots(ca), roots(cb)
 				compared++
-				construct := fmt.Sprintf("%s: %s vs %s", fname(f), p.staticCalleeName(&ca.Call), p.staticCalleeName(&cb.Call))
-				if fmt.Sprint(ra) == fmt.Sprint(rb) {
-					c.ok("C14.dispatch", construct, fmt.Sprintf("both arms forward parameters %v", ra), p.pos(ifi.Pos()))
-				} else {
+				na, nb := p.staticCalleeName(&ca.Call), p.staticCalleeName(&cb.Call)
+				construct := fmt.Sprintf("%s: %s vs %s", fname(f), na, nb)
+				// the portable build's body of the same function must call what one of the arms calls
+				portable := ""
+				if pg := progs["amd64-purego"]; pg != nil && n == "amd64" && f.Pkg != nil {
+					if sib := siblingOf(pg, f); sib != nil && pg.Fset.Position(sib.Pos()).Filename != p.Fset.Position(f.Pos()).Filename {
+						found := false
+						var calls []string
+						for _, sb := range sib.Blocks {
+							for _, in := range sb.Instrs {
+								if ci, ok := in.(ssa.CallInstruction); ok {
+									if _, isB := ci.Common().Value.(*ssa.Builtin); isB {
+										continue
+									}
+									cn := pg.staticCalleeName(ci.Common())
+									calls = append(calls, cn)
+									if cn == na || cn == nb {
+										found = true
+									}
+								}
+							}
+						}
+						if len(calls) > 0 && !found {
+							c.bad("C14.dispatch", construct, fmt.Sprintf("the portable build implements this function by calling %v (%s), which is neither arm of the dispatch", calls, pg.pos(sib.Pos())), p.pos(ifi.Pos()))
+							continue
+						}
+						if found {
+							portable = "; the portable build calls one of the arms"
+							withSibling++
+						}
+					}
+				}
+				if fmt.Sprint(ra) != fmt.Sprint(rb) {
 					c.bad("C14.dispatch", construct, fmt.Sprintf("the arms forward different parameters: %v vs %v", ra, rb), p.pos(ifi.Pos()))
+				} else {
+					c.ok("C14.dispatch", construct, fmt.Sprintf("both arms forward parameters %v%s", ra, portable), p.pos(ifi.Pos()))
 				}
 			}
 		}
 		c.count("dispatch_compared_"+n, compared)
+		c.count("dispatch_with_portable_sibling_"+n, withSibling)
+		if n == "amd64" && withSibling < 8 {
+			c.undecided("C14.dispatch", "dispatch sites with a portable sibling", fmt.Sprintf("only %d found (floor 8)", withSibling), "")
+		}
 		c.count("dispatch_not_thin_"+n, skipped)
 		if n == "amd64" && compared < 15 {
 			c.undecided("C14.dispatch", "dispatch sites", fmt.Sprintf("only %d thin dispatch sites found in the amd64 build (floor 15)", compared), "")
@@ -566,4 +601,19 @@ func c14Derive(c *Ctx, p *Program, f *ssa.Function, pkg string) {
 	default:
 		c.ok("C14.derive", construct, w, p.fnPos(f))
 	}
+}
+
+// siblingOf: the function of the same package and name in another configuration.
+func siblingOf(other *Program, f *ssa.Function) *ssa.Function {
+	sp := other.SSAPkg[f.Pkg.Pkg.Path()]
+	if sp == nil {
+		return nil
+	}
+	want := f.RelString(f.Pkg.Pkg)
+	for g := range other.AllFuncs {
+		if g.Pkg == sp && g.Blocks != nil && g.Parent() == nil && g.RelString(sp.Pkg) == want {
+			return g
+		}
+	}
+	return nil
 }
